@@ -12,7 +12,9 @@ property C16:
     intersection is empty ("different ground types, list vs scalar, a closed record
     missing an addressed field").
 
-Two formulations are provided and cross-checked against each other by the check:
+Two formulations are provided and cross-checked against each other by the check
+(plus `Constraints`, the Graph extended to histories of constraint operations:
+field addressing, list element, closing a record -- see its docstring):
 
   meet(a, b)      structural recursion over two tree terms;
   Graph           the same case analysis over a pool of nodes with identity
